@@ -82,19 +82,23 @@ def save(pid, n, res, patch, demo):
     save_meta(pid, n, m)
 
 def detect(pid, n, props):
+    # SEED_REPO / SEED_VERIF: run against a scratch worktree of /repo and a scratch copy of /verif
+    # pointed at it (used while /repo itself is occupied by a long run)
+    REPO = os.environ.get("SEED_REPO", REPO)
+    VERIF = os.environ.get("SEED_VERIF", "/verif")
     d = seed_dir(pid, n)
     patch = f"{d}/patch.diff"
-    rc, out = sh("git status --porcelain --untracked-files=no", "/repo")
+    rc, out = sh("git status --porcelain --untracked-files=no", REPO)
     if out.strip():
-        print("refusing: /repo has uncommitted changes:\n" + out); return 2
-    rc, out = sh(f"git apply {patch}", "/repo")
+        print(f"refusing: {REPO} has uncommitted changes:\n" + out); return 2
+    rc, out = sh(f"git apply {patch}", REPO)
     if rc != 0:
-        print("patch does not apply to /repo:", out); return 2
+        print(f"patch does not apply to {REPO}:", out); return 2
     results = {}
     try:
         for p in props:
             t = time.time()
-            rc, out = sh(f"./check {p} --tier quick 2>&1 | tail -40", "/verif", timeout=3600)
+            rc, out = sh(f"./check {p} --tier quick 2>&1 | tail -40", VERIF, timeout=3600)
             viol = [l for l in out.splitlines() if l.startswith("VIOLATION")]
             # exit code of the pipeline is tail's; derive from output
             detected = bool(viol)
@@ -103,12 +107,12 @@ def detect(pid, n, props):
             results[p] = {"detected": detected, "inconclusive": inconcl, "violations": len(viol), "first_signatures": sigs, "wall_s": round(time.time() - t, 1)}
             print(f"  {pid}-{n} vs {p}: {'DETECTED' if detected else ('inconclusive' if inconcl else 'missed')} ({results[p]['wall_s']} s) {sigs[:1]}")
     finally:
-        sh("git checkout -- . && git clean -fdq src", "/repo")
+        sh("git checkout -- . && git clean -fdq src", REPO)
     m = load_meta(pid, n)
     det = m.get("detection", {})
     det.update(results)
     m["detection"] = det
-    m["what_i_ran"] = f"git -C /repo apply patch.diff; ./check <P> --tier quick for P in {sorted(det)}; git -C /repo checkout -- ."
+    m["what_i_ran"] = f"git -C {REPO} apply patch.diff; ./check <P> --tier quick for P in {sorted(det)} (in {VERIF}); git -C {REPO} checkout -- ."
     save_meta(pid, n, m)
     return 0
 
